@@ -5,7 +5,10 @@ package f3
 import (
 	"github.com/filecoin-project/go-f3/gpbft"
 	"github.com/filecoin-project/go-f3/internal/writeaheadlog"
+	"github.com/libp2p/go-libp2p/core/peer"
 )
+
+func peerID(s string) peer.ID { return peer.ID(s) }
 
 // Accessors injected at build time by /verif (never committed to /repo).
 
@@ -16,3 +19,12 @@ func VerifNewWalEntry(m *gpbft.GMessage) walEntry { return walEntry{Message: m} 
 type VerifWAL = writeaheadlog.WriteAheadLog[walEntry, *walEntry]
 
 func VerifOpenWAL(dir string) (*VerifWAL, error) { return writeaheadlog.Open[walEntry](dir) }
+
+// equivocation filter
+type VerifFilter struct{ f equivocationFilter }
+
+func VerifNewFilter(local string) *VerifFilter {
+	return &VerifFilter{f: newEquivocationFilter(peerID(local))}
+}
+func (v *VerifFilter) ProcessBroadcast(m *gpbft.GMessage) bool { return v.f.ProcessBroadcast(m) }
+func (v *VerifFilter) ProcessReceive(p string, m *gpbft.GMessage) { v.f.ProcessReceive(peerID(p), m) }
